@@ -63,6 +63,11 @@ pub fn monthdays() -> Vec<Vec<MonthdayRange>> {
         vec![md_range(fixed(Some(2020), 6, 1), o, fixed(None, 6, 1), o)], // 2020 Jun 01-Jun 01: year-less end equal to the start
         vec![md_range(easter(Some(2020)), o, fixed(Some(9999), 12, 31), o)], // 2020 easter+
         vec![md_range(easter(None), off_days(1), fixed(None, 12, 31), o)],  // easter +1 day+
+        // ranges of which one bound is an Easter with a year, or of which only one bound has a year
+        vec![md_range(fixed(Some(2024), 1, 1), o, easter(Some(2024)), o)], // 2024 Jan 01-2024 easter
+        vec![md_range(easter(Some(2021)), o, fixed(None, 6, 30), o)],      // 2021 easter-Jun 30
+        vec![md_range(fixed(None, 3, 1), o, fixed(Some(2020), 4, 5), o)],  // Mar 01-2020 Apr 05
+        vec![md_range(easter(None), o, fixed(Some(2020), 5, 1), o)],       // easter-2020 May 01
     ]
 }
 
